@@ -31,6 +31,9 @@ int vc_memcmp_result; const void *vc_memcmp_a, *vc_memcmp_b;
 #else
 #define MD 3
 #endif
+#ifndef VC_STEP8_NAME
+#define VC_STEP8_NAME 2      /* names of 0..2 bytes: prefix / extension / embedded NUL / >= 0x80 cases all occur */
+#endif
 #ifndef VC_STEP_MAXBUF
 #define VC_STEP_MAXBUF 64          /* the tokens of the step lie in the first bytes behind the cursor */
 #endif
@@ -185,13 +188,13 @@ void h_step(void)
     __CPROVER_assume(lv->flags == BINSON_STATE_IN_OBJ_EXPECTING_FIELD && lv->array_depth == 0 && lv->current_name.bptr == NULL);
     __CPROVER_assume(p.type == BINSON_PTYPE_OBJECT || p.depth > 1);
     ref_token nt = ref_scan(buf, n, o_used);
-    __CPROVER_assume(nt.kind == RT_STRING && nt.pay_len <= 4);
+    __CPROVER_assume(nt.kind == RT_STRING && nt.pay_len <= VC_STEP8_NAME);
     ref_token vt = ref_scan(buf, n, o_used + nt.len);
-    __CPROVER_assume(vt.kind == RT_BOOL || vt.kind == RT_INT);
+    __CPROVER_assume(vt.kind == RT_BOOL);
     size_t endpos = o_used + nt.len + vt.len;
     __CPROVER_assume(endpos < n && buf[endpos] == 0x41);                 /* the object ends behind this one field */
     size_t ql = nondet_size_t();
-    __CPROVER_assume(ql <= 4);
+    __CPROVER_assume(ql <= VC_STEP8_NAME);
     char *q = malloc(ql);
     __CPROVER_assume(q != NULL);
     int ord = ref_cmp(buf + nt.pay_off, nt.pay_len, (const uint8_t *) q, ql);
